@@ -190,6 +190,8 @@ class Transportation1dSorter {
  private:
   std::vector<int> srcOrder;
   std::vector<int> snkOrder;
+  // Number of sources in the original problem (including empty ones)
+  int nbSources_;
 };
 
 /**
